@@ -240,6 +240,72 @@ func genGas(fc *fileCache) {
 		miss("memGasCost: words*MemoryGas + words^2/QuadCoeffDiv, limit 0x1FFFFFFFE0")
 	}
 
+	// ---- the CREATE / CREATE2 case of vm/contract.go: the Burrow constant it charges and the facts the model's
+	// CREATE relies on (recognised in the source text of the case clause)
+	createGasName, createGasVal := "", "0"
+	facts := map[string]bool{}
+	if fd := fc.fn("vm/contract.go", "execute"); fd != nil {
+		if cc := evmCaseMulti(fd, "CREATE", "CREATE2"); cc != nil {
+			ast.Inspect(cc, func(n ast.Node) bool {
+				if ce, isCall := n.(*ast.CallExpr); isCall && src(fc.fset, ce.Fun) == "engine.UseGasNegative" && len(ce.Args) == 2 &&
+					src(fc.fset, ce.Args[0]) == "params.Gas" && createGasName == "" {
+					if sel, isSel := ce.Args[1].(*ast.SelectorExpr); isSel && src(fc.fset, sel.X) == "engine" {
+						createGasName = sel.Sel.Name
+					}
+				}
+				return true
+			})
+			body := ""
+			for _, st := range cc.Body {
+				body += src(fc.fset, st) + " ; "
+			}
+			has := func(sub string) bool { return strings.Contains(body, sub) }
+			// the constructor runs on the creator's own gas object, not on an allowance set aside
+			facts["createSharesGas"] = has("Gas: params.Gas")
+			// CREATE2 hashes the CREATOR's deployed code where the specification hashes the init code
+			facts["create2HashesCreatorCode"] = has("code := engine.MustGetAccount(st.CallFrame, maybe, params.Callee).EVMCode") &&
+				has("crypto.NewContractAddress2(params.Callee, salt, code)")
+			// the constructor receives the init code as its call data too
+			facts["createInputIsInitCode"] = has("Input: input") && has("c.Contract(input).Call(")
+			// the sequence number is a field of the CVM shared by all frames, incremented before the address is derived
+			facts["createSeqPerVm"] = has("c.sequence++") && strings.Index(body, "c.sequence++") < strings.Index(body, "crypto.NewContractAddress(params.Callee, nonce)")
+			// a failed constructor is not pushed into the creator's error sink: 0 is pushed and the output kept as return data
+			facts["createFailurePushesZero"] = has("if callErr != nil { stack.Push(Zero256)") && has("returnData = ret")
+			// the new account is created in the child frame; a failure (address in use) goes into the creator's error sink
+			facts["createCollisionIntoSink"] = has("maybe.PushError(engine.CreateAccount(childCallFrame, newAccountAddress))")
+		}
+	}
+	if createGasName != "" {
+		if bf := fc.getAbs(burrowFile("execution/engine/gas.go")); bf != nil {
+			for _, d := range bf.Decls {
+				gd, isGen := d.(*ast.GenDecl)
+				if !isGen || gd.Tok != token.CONST {
+					continue
+				}
+				for _, sp := range gd.Specs {
+					vs := sp.(*ast.ValueSpec)
+					for i, n := range vs.Names {
+						if n.Name == createGasName && i < len(vs.Values) {
+							if t, good := natTerm(fc, vs.Values[i], map[string]bool{}); good {
+								createGasVal = t
+								facts["createAccountGas"] = true
+							}
+						}
+					}
+				}
+			}
+		}
+	}
+	g.lines = append(g.lines, fmt.Sprintf("/-- vm/contract.go execute, case CREATE, CREATE2: `engine.UseGasNegative(params.Gas, engine.%s)`; the value is Burrow's (execution/engine/gas.go of the version in go.mod) -/", createGasName),
+		"def GasCreateAccount : Nat := "+createGasVal)
+	var factNames []string
+	for _, n := range []string{"createAccountGas", "createSharesGas", "create2HashesCreatorCode", "createInputIsInitCode", "createSeqPerVm", "createFailurePushesZero", "createCollisionIntoSink"} {
+		g.lines = append(g.lines, fmt.Sprintf("def %s_found : Bool := %v", n, facts[n]))
+		factNames = append(factNames, n+"_found")
+	}
+	g.lines = append(g.lines, "")
+	g.found = append(g.found, factNames...)
+
 	// ---- calcMemSize (vm/memory.go)
 	memRule := map[string]string{}
 	if fd := fc.fn("vm/memory.go", "calcMemSize"); fd != nil {
@@ -377,4 +443,32 @@ func paren(s string) string {
 		return "(" + s + ")"
 	}
 	return s
+}
+
+// evmCaseMulti finds `case A, B:` in the `switch op` of execute.
+func evmCaseMulti(fd *ast.FuncDecl, names ...string) *ast.CaseClause {
+	var found *ast.CaseClause
+	ast.Inspect(fd.Body, func(n ast.Node) bool {
+		sw, ok := n.(*ast.SwitchStmt)
+		if !ok || fmt.Sprint(sw.Tag) != "op" {
+			return true
+		}
+		for _, c := range sw.Body.List {
+			cc := c.(*ast.CaseClause)
+			if len(cc.List) != len(names) || found != nil {
+				continue
+			}
+			same := true
+			for i, nm := range names {
+				if fmt.Sprint(cc.List[i]) != nm {
+					same = false
+				}
+			}
+			if same {
+				found = cc
+			}
+		}
+		return false
+	})
+	return found
 }
